@@ -315,6 +315,48 @@ def rule_accounting(ctx, r):
                 r.fail(f.name, "forwarding", "%s can return %s without calling %s on a path that tests %s: for those arguments the C call "
                        "does not do what the Rust call does" % (fname.split("::")[-1], tstr(x.ret)[:60] if x.ret else "?", call.split("::")[-1],
                                                                 [tstr(a)[:80] for a in other][:3]), where=first_span(x), path=row_path(x))
+    # try_new: the slices handed to the Rust layer are the caller's own (pointer, count) pairs — so that what into_mz_stream writes
+    # back (slice pointer / length after the call) is the caller's pointer advanced by the bytes used
+    tn = [g for g in c.fns.values() if g.name.endswith("::try_new") and "StreamOxide" in g.name and g.kind != "promoted"]
+    if len(tn) != 1:
+        r.fail("StreamOxide::try_new", "slices", "StreamOxide::try_new not found (%d candidates)" % len(tn))
+    else:
+        g = tn[0]
+        ctx.touched(g)
+        nrow = 0
+        for x in paths.Evaluator(c, extra_crates=[mo]).run(g):
+            if x.outcome[0] != "return" or not x.ret or x.ret[0] != "agg" or x.ret[2] != "Ok":
+                continue
+            so = x.ret[4][0]
+            if not (so and so[0] == "agg" and so[1].endswith("StreamOxide")):
+                r.fail(g.name, "slices", "try_new returns %s" % tstr(so)[:80])
+                continue
+            d = dict(zip(so[3], so[4]))
+            nrow += 1
+            for fieldname, maker, cnt in (("next_in", "from_raw_parts", "avail_in"), ("next_out", "from_raw_parts_mut", "avail_out")):
+                v = d.get(fieldname)
+                isnull = [sset.single() for a, sset in x.atoms if a[0] in ("pure", "call") and "is_null" in str(a[1]) and
+                          paths.term_contains(a, lambda y: y[0] == "fld" and y[2] == fieldname)]
+                good = False
+                if v and v[0] == "agg" and v[2] == "None":
+                    good = bool(isnull) and isnull[-1] == 1
+                elif v and v[0] == "agg" and v[2] == "Some":
+                    pl = v[4][0]
+                    while pl[0] == "ref" and isinstance(pl[1], tuple) and pl[1] and pl[1][0] == "deref":       # reborrow &*x
+                        pl = pl[1][1]
+                    if pl[0] == "call" and pl[1].endswith("slice::" + maker) or (pl[0] == "call" and pl[1].endswith(maker)):
+                        a0, a1 = pl[2][0], pl[2][1]
+                        while a1[0] == "cast":
+                            a1 = a1[1]
+                        good = paths.is_load_of(a0, fieldname) and paths.is_load_of(a1, cnt) and bool(isnull) and isnull[-1] == 0
+                if good:
+                    r.ok(g.name, "slices:" + fieldname, "%s = None iff the pointer is NULL, else %s(stream.%s, stream.%s)" % (fieldname, maker, fieldname, cnt))
+                else:
+                    r.fail(g.name, "slices:" + fieldname, "try_new builds StreamOxide.%s as %s: not the caller's own (pointer, count) pair, so the pointer "
+                           "written back after the call is not the caller's pointer advanced by the bytes used" % (fieldname, tstr(v)[:100] if v else None),
+                           where=first_span(x), path=row_path(x, 6))
+        if nrow < 4:
+            r.fail(g.name, "slices-rows", "expected 4 successful rows of try_new (pointer NULL / non-NULL on each side), found %d" % nrow)
     # into_mz_stream: pointer and count come from the same slice
     f = c.fn("into_mz_stream")
     ctx.touched(f)
